@@ -26,7 +26,8 @@ MUTANTS = [
          "        if delay < 0:\n            raise ValueError(f'Negative delay {delay}')",
          "        if delay <= -1e-9:\n            raise ValueError(f'Negative delay {delay}')")]),
     dict(prop='C01', name='until-sentinel-normal', edits=[(CORE,
-         "self.schedule(until, URGENT, at - self.now)", "self.schedule(until, NORMAL, at - self.now)")]),
+         "heappush(self._queue, (at, URGENT, next(self._eid), until))",
+         "heappush(self._queue, (at, NORMAL, next(self._eid), until))")]),
 ]
 
 
@@ -66,5 +67,72 @@ MUTANTS += [
     dict(prop='C02', name='return-value-none-when-falsy', edits=[(EVENTS,
          "                self._value = e.args[0] if len(e.args) else None",
          "                self._value = (e.args[0] or None) if len(e.args) else None")]),
+]
+
+MUTANTS += [
+    # ---- C04
+    dict(prop='C04', name='victim-not-detached-from-target', edits=[(EVENTS,
+         "        self.process._target.callbacks.remove(self.process._resume)\n",
+         "        pass\n")]),
+    dict(prop='C04', name='deliver-to-dead-victims', edits=[(EVENTS,
+         "        if self.process.triggered:\n            return\n",
+         "")]),
+    dict(prop='C04', name='initialize-scheduled-normal', edits=[(EVENTS,
+         "        self._ok = True\n        env.schedule(self, URGENT)",
+         "        self._ok = True\n        env.schedule(self, NORMAL)")]),
+    dict(prop='C04', name='no-self-interrupt-check', edits=[(EVENTS,
+         "        if process is self.env.active_process:\n            raise RuntimeError('A process is not allowed to interrupt itself.')\n",
+         "")]),
+    dict(prop='C04', name='interrupt-cause-dropped-when-falsy', edits=[(EVENTS,
+         "        self._value = Interrupt(cause)", "        self._value = Interrupt(cause or None)")]),
+    dict(prop='C04', name='second-pending-interrupt-dropped', edits=[(EVENTS,
+         "        self.process = process\n        self.env.schedule(self, URGENT)",
+         "        self.process = process\n        if getattr(process, '_intr_at', None) == (self.env.now, self.env.active_process):\n            return\n        process._intr_at = (self.env.now, self.env.active_process)\n        self.env.schedule(self, URGENT)")]),
+]
+
+MUTANTS += [
+    # ---- C05
+    dict(prop='C05', name='all-events-off-by-one', edits=[(EVENTS,
+         "        return len(events) == count", "        return len(events) <= count + (len(events) > 3)")]),
+    dict(prop='C05', name='any-events-needs-two', edits=[(EVENTS,
+         "        return count > 0 or len(events) == 0", "        return count > (len(events) > 2) or len(events) == 0")]),
+    dict(prop='C05', name='value-of-triggered-not-processed-leaves', edits=[(EVENTS,
+         "            elif event.callbacks is None:\n                value.events.append(event)",
+         "            elif event.triggered:\n                value.events.append(event)")]),
+    dict(prop='C05', name='failed-operand-not-defused', edits=[(EVENTS,
+         "            event._defused = True\n            self.fail(event._value)",
+         "            self.fail(event._value)")]),
+    dict(prop='C05', name='check-not-detached-value-grows', edits=[(EVENTS,
+         "        self._remove_check_callbacks()\n        if event._ok:\n            self._value = ConditionValue()\n            self._populate_value(self._value)",
+         "        self._remove_check_callbacks()\n        if event._ok:\n            self._value = ConditionValue()\n            self._populate_value(self._value)\n            for e in self._events:\n                if e.callbacks is not None and not isinstance(e, Condition):\n                    e.callbacks.append(lambda ev, v=self._value: v.events.append(ev))")]),
+    dict(prop='C05', name='preprocessed-operands-ignored-after-first', edits=[(EVENTS,
+         "            if event.callbacks is None:\n                self._check(event)",
+         "            if event.callbacks is None and self._count == 0:\n                self._check(event)")]),
+    dict(prop='C05', name='mixed-env-check-skipped-for-anyof', edits=[(EVENTS,
+         "            if self.env != event.env:", "            if self.env != event.env and evaluate is not Condition.any_events:")]),
+    dict(prop='C05', name='value-order-sorted-by-completion', edits=[(EVENTS,
+         "            self._populate_value(self._value)\n",
+         "            self._populate_value(self._value)\n            self._value.events.sort(key=lambda e: getattr(e, '_delay', 0))\n")]),
+]
+
+MUTANTS += [
+    # ---- C03
+    dict(prop='C03', name='until-sentinel-normal', edits=[(CORE,
+         "heappush(self._queue, (at, URGENT, next(self._eid), until))",
+         "heappush(self._queue, (at, NORMAL, next(self._eid), until))")]),
+    dict(prop='C03', name='sentinel-by-delay-again', edits=[(CORE,
+         "heappush(self._queue, (at, URGENT, next(self._eid), until))",
+         "self.schedule(until, URGENT, at - self.now)")]),
+    dict(prop='C03', name='stop-raised-inside-callback-loop-again', edits=[(CORE,
+         "            except StopSimulation as exc:\n",
+         "            except StopSimulation as exc:\n                raise\n")]),
+    dict(prop='C03', name='until-event-value-lost-when-falsy', edits=[(CORE,
+         "            return exc.args[0]  # == until.value", "            return exc.args[0] or None")]),
+    dict(prop='C03', name='processed-until-event-runs-on', edits=[(CORE,
+         "            elif until.callbacks is None:\n                # Until event has already been processed.\n                return until.value",
+         "            elif until.callbacks is None:\n                # Until event has already been processed.\n                if self._queue: self.step()\n                return until.value")]),
+    dict(prop='C03', name='set-iteration-in-step', edits=[(CORE,
+         "        for callback in callbacks:\n            try:",
+         "        for callback in (callbacks if len(callbacks) < 3 else sorted(callbacks, key=lambda c: hash(str(getattr(c, '__self__', c))))):\n            try:")]),
 ]
 MUTANTS.sort(key=lambda m: (m['prop'], m['name']))
